@@ -117,6 +117,20 @@ Theorem C19_expected_impls_cover_surface : forall T e k, kind_of T (e_det e) = S
    = emits_from_ref_self (e_det e)).
 Proof. exact expected_impls_cover_surface. Qed.
 
+(* A newtype over a Native - the IR form of every replacement / conversion type of the settings and of
+   the built-in uuid / chrono / ip types, whatever impls (Display, FromStr, Default) are recorded for it -
+   never gets a comparison, hashing or Copy derive from typify: those come from the String test alone. *)
+Theorem C19_no_comparison_derives_over_settings_native : forall T n df inner c ds name impls params x,
+  get_det T inner = Some (DNative name impls params) ->
+  In x ["Copy"; "PartialOrd"; "Ord"; "PartialEq"; "Eq"; "Hash"] ->
+  ~ In (u x) (builtin_derives T (mkEntry (DNewtype n df inner c) ds)).
+Proof. exact no_comparison_derives_over_settings_native. Qed.
+
+Theorem C19_comparison_derives_only_over_string : forall T n df inner c ds x,
+  get_det T inner <> Some DString -> In x ["Copy"; "PartialOrd"; "Ord"; "PartialEq"; "Eq"; "Hash"] ->
+  ~ In (u x) (builtin_derives T (mkEntry (DNewtype n df inner c) ds)).
+Proof. exact comparison_derives_only_over_string. Qed.
+
 (* ---- non-vacuity: the hypotheses are satisfiable and the conclusions are not trivial ---- *)
 Definition ex_settings : settings := mkSettings None [u "PartialEq"] false (u "HashMap").
 Definition ex_space : space :=
